@@ -1,5 +1,5 @@
 """C14  Listing runs nothing and agrees exactly with what a run would execute."""
-from lib.facts import norm
+from lib.facts import norm, origins
 from lib import tables
 
 EXPLANATION = (
@@ -326,6 +326,22 @@ def r14_4(ctx, prog, crate):
         return
     prints = [c for c in b.live_calls() if c.callee == "std::io::_print"]
     recs = [c for c in b.live_calls() if c.callee == b.path]
+    # idiom 2: the per-argument line is printed by a closure handed to Iterator::for_each over the arguments
+    fe_site = None
+    if len(prints) == 1 and len(recs) == 1:
+        for x in prog.children(b):
+            if x.kind != "Closure":
+                continue
+            xp = [c for c in x.live_calls() if c.callee == "std::io::_print"]
+            if len(xp) != 1:
+                continue
+            for c in b.live_calls():
+                if c.callee.endswith("::for_each") and len(c.args) == 2:
+                    og = origins(b, c.args[1])
+                    if any(o[0] == "rvalue" and o[1]["k"] == "agg" and o[1]["ak"] == "closure" and norm(o[1]["def"]) == x.path for o in og):
+                        fe_site = (c, x, xp[0])
+    if fe_site is not None:
+        return _r14_4_for_each(ctx, prog, crate, b, prints[0], recs[0], fe_site)
     if not ctx.check(len(prints) == 2 and len(recs) == 1, "R14.4", ["run_tree_list", "two-print-sites-one-recursion"],
                      "print sites: %d, recursive calls: %d" % (len(prints), len(recs)), b.where(0)):
         return
@@ -367,6 +383,36 @@ def r14_4(ctx, prog, crate):
     # at most one of them per iteration and no path through the Leaf arm that passes the ignore test prints nothing:
     ctx.check(b.innermost_loop(plain[0].bb)["header"] == outer["header"], "R14.4", ["run_tree_list", "plain-once"],
               "plain line is printed inside a nested loop", plain[0].line())
+
+
+def _r14_4_for_each(ctx, prog, crate, b, plain, rec, fe_site):
+    """R14.4 when the argument lines come from `args.iter().for_each(|arg| println!(..))`."""
+    fe, x, xp = fe_site
+    ctx.saw(x)
+    ctx.ok("R14.4", "run_tree_list|two-print-sites-one-recursion")
+    outer = [l for l in b.loops if plain.bb in l["body"] and rec.bb in l["body"] and fe.bb in l["body"]]
+    if not ctx.check(len(outer) >= 1, "R14.4", ["run_tree_list", "per-child-loop"], "prints/recursion are not inside the per-child loop", b.where(0)):
+        return
+    outer = max(outer, key=lambda l: len(l["body"]))
+    ctx.ok("R14.4", "run_tree_list|one-plain-one-per-argument")
+    # the closure prints exactly once per call (= per argument)
+    once = x.innermost_loop(xp.bb) is None and not (set(x.returns) & x.reach([0], avoid=[xp.bb]))
+    ctx.check(once and b.innermost_loop(fe.bb)["header"] == outer["header"], "R14.4", ["run_tree_list", "one-line-per-argument"],
+              "the per-argument line is not printed exactly once per argument", xp.line())
+    srcs = b.prov.op_src(fe.args[0])
+    ctx.check(any(s.kind == "call" and ("into_iter" in s.a or s.a.endswith("::iter")) for s in srcs), "R14.4", ["run_tree_list", "argument-loop-over-args"],
+              "for_each does not iterate an args collection", fe.line())
+    arms = leaf_arm(prog, b, crate)
+    if ctx.check(len(arms) >= 1, "R14.4", ["run_tree_list", "match-on-node-kind"], "no match on the node kind", b.where(0)):
+        bi, leaf, parent = arms[0]
+        ctx.check(b.dominates(parent, rec.bb) and not b.dominates(parent, plain.bb) and not b.dominates(parent, fe.bb)
+                  and b.dominates(leaf, plain.bb) and b.dominates(leaf, fe.bb) and not b.dominates(leaf, rec.bb),
+                  "R14.4", ["run_tree_list", "parents-recurse-leaves-print"], "printing/recursion are not split between the Leaf and Parent arms", b.where(bi))
+        within = b.reach([rec.target], avoid=[outer["header"]]) if rec.target is not None else set()
+        ctx.check(plain.bb not in within and fe.bb not in within, "R14.4", ["run_tree_list", "parent-prints-nothing"], "a group node prints a line of its own", rec.line())
+    excl = plain.bb not in b.reach([fe.bb], avoid=[outer["header"]]) and fe.bb not in b.reach([plain.bb], avoid=[outer["header"]])
+    ctx.check(excl, "R14.4", ["run_tree_list", "plain-xor-arguments"], "a leaf can print both its own line and per-argument lines", plain.line())
+    ctx.check(b.innermost_loop(plain.bb)["header"] == outer["header"], "R14.4", ["run_tree_list", "plain-once"], "plain line is printed inside a nested loop", plain.line())
 
 
 def r14_5(ctx, prog, crate):
